@@ -289,12 +289,14 @@ def forbid_entropy(n):
 
 STYLE = None
 STYLES = ("subclass", "subclass-init", "password-keyword", "positional", "inbound-bytearray", "inbound-memoryview", "blob-bytearray", "unbound-calls")
+# differential oracles only (the subclass changes what finish() returns): C08
+STYLES_DIFFERENTIAL = ("subclass-extends",)
 _SUBS = {}
 
 
 class call_style:
     def __init__(self, style):
-        assert style is None or style in STYLES, style
+        assert style is None or style in STYLES or style in STYLES_DIFFERENTIAL, style
         self.style = style
 
     def __enter__(self):
@@ -325,6 +327,20 @@ def styled_class(cls):
             def describe(self):
                 return "%s(%s)" % (type(self).__name__, self.app_session_label)
             _SUBS[k] = type("Tracked" + cls.__name__, (cls,), {"__init__": __init__, "describe": describe})
+        return _SUBS[k]
+    if STYLE == "subclass-extends":
+        k = (cls, "extends")
+        if k not in _SUBS:
+            import hashlib as _h
+
+            def finish(self, msg):
+                # an application that binds the session key to its own label
+                return _h.sha256(b"application-label|" + cls.finish(self, msg)).digest()
+
+            def start(self):
+                self.app_started = True
+                return cls.start(self)
+            _SUBS[k] = type("Labelled" + cls.__name__, (cls,), {"finish": finish, "start": start})
         return _SUBS[k]
     return cls
 
